@@ -177,7 +177,11 @@ func c12(run *core.Run, replay string) {
 		if core.Hangs() >= 3 {
 			return
 		}
-		g, returned := guarded(func() kd { k, d := runEntCase(c); return kd{k, d, true} })
+		scale := 1
+		if c.Size > 8<<20 {
+			scale = 15 // tens of MiB through a bit-wise coder take tens of seconds on a loaded machine
+		}
+		g, returned := guardedFor(scale, func() kd { k, d := runEntCase(c); return kd{k, d, true} })
 		if !returned {
 			run.Eval(1)
 			run.Violate("C12 hang codec="+c.Codec, fmt.Sprintf("shape=%s size=%d: encode/decode never returned (60 s, then 180 s)", c.Shape, c.Size), c)
@@ -264,6 +268,15 @@ func c12(run *core.Run, replay string) {
 				for sd := 0; sd < run.Pick(2, 4); sd++ {
 					cases = append(cases, &entCase{Codec: codec, Shape: "random", Size: 4<<20 + tail, Seed: run.Seed*17 + int64(sd), Prefix: 2 + q})
 				}
+			}
+		}
+		// the 64 MiB threshold above which the binary coders split a block into 8 chunks (encoder and decoder must agree on it)
+		if codec == "CM" || (run.Thorough() && kz.Heavy(codec)) {
+			for q, sz := range []int{1<<26 - 1, 1 << 26, 1<<26 + 9} {
+				if codec != "CM" && q != 1 {
+					continue
+				}
+				cases = append(cases, &entCase{Codec: codec, Shape: []string{"skewed", "text", "runs"}[q], Size: sz, Seed: run.Seed + int64(q), Prefix: 4 + q})
 			}
 		}
 		// large block sizes in the context (hash sizing of TPAQ/TPAQX) and multi-chunk for the 4 MiB chunk codecs
